@@ -1,6 +1,106 @@
-/- stub: property C11 has no model driver yet -/
-namespace ActixModel.Drv.C11
+import ActixModel.Util
+import ActixModel.Model.ReqPool
+/-
+Line-protocol driver for C11.  One case = one history through one service instance:
+space separated tokens
 
-def run (_line : String) : String := "unimplemented"
+  R:<conn>:<method>:<uri>:<ver>:<peer>:<hdrs>:<reqdata>:<acts>   serve a request
+        conn `-`|n   peer `-`|port   hdrs `-`|name=v,name=v   reqdata `-`|tag=v,…
+        acts `-`| e<tag>=<v> (insert extension) , k<slot> (stash a clone) , x (handler never
+        completes, caller drops the future)
+  D:<slot>          drop the stashed handle
+  V:<slot>          dump through the stashed handle
+  E:<slot>:<tag>=<v> insert an extension through the stashed handle
+  C:<slot>:<slot2>  clone the stashed handle into slot2
+  X                 drop the service (disables the pool)
+  Q:<conn>          connection closed (its dispatcher drops the connection data)
+  M=<mode>          harness mode marker (no effect on the model)
+
+Output: per token `<text>#<live extension values>,<live connection data>`; `<text>` of `R` is the
+`|`-joined dumps (middleware before routing | handler | middleware after), see
+`ActixModel.ReqPool.dump`.  Implementation side: `harness/src/props/c11.rs`.
+-/
+namespace ActixModel.Drv.C11
+open ActixModel.Util ActixModel.ReqPool
+
+def optNat (s : String) : Option (Option Nat) :=
+  if s == "-" then some none else s.toNat?.map some
+
+def parsePairs (s : String) : Option (List (String × String)) :=
+  if s == "-" then some []
+  else (s.splitOn ",").mapM fun kv =>
+    match kv.splitOn "=" with
+    | [k, v] => some (k, v)
+    | _ => none
+
+def parseNatPairs (s : String) : Option (List (Nat × Nat)) := do
+  let ps ← parsePairs s
+  ps.mapM fun (k, v) => do
+    let k ← k.toNat?
+    let v ← v.toNat?
+    pure (k, v)
+
+def parseAct (s : String) : Option Act :=
+  match s.toList with
+  | ['x'] => some .cancel
+  | 'k' :: rest => (String.ofList rest).toNat?.bind fun n => if n == 0 then none else some (.stash n)
+  | 'e' :: rest =>
+    match (String.ofList rest).splitOn "=" with
+    | [t, v] => do
+      let t ← t.toNat?
+      let v ← v.toNat?
+      pure (.ext t v)
+    | _ => none
+  | _ => none
+
+def parseActs (s : String) : Option (List Act) :=
+  if s == "-" then some [] else (s.splitOn ",").mapM parseAct
+
+def slot (s : String) : Option Nat := s.toNat?.bind fun n => if n == 0 then none else some n
+
+def parseOp (tok : String) : Option Op :=
+  match tok.splitOn ":" with
+  | ["R", conn, method, uri, ver, peer, hdrs, xd, acts] => do
+    let conn ← optNat conn
+    let peer ← optNat peer
+    let hdrs ← parsePairs hdrs
+    let xd ← parseNatPairs xd
+    let acts ← parseActs acts
+    -- `take_req_data` yields a map: later inserts of the same type replace earlier ones
+    let xd := xd.foldl (fun m e => extInsert m e.1 e.2) []
+    pure (.serve ⟨⟨method, uri, ver, peer, hdrs⟩, conn, xd⟩ acts)
+  | ["D", s] => (slot s).map .drop
+  | ["V", s] => (slot s).map .view
+  | ["E", s, kv] =>
+    match kv.splitOn "=" with
+    | [t, v] => do
+      let s ← slot s
+      let t ← t.toNat?
+      let v ← v.toNat?
+      pure (.ext s t v)
+    | _ => none
+  | ["C", s, s2] => do
+    let s ← slot s
+    let s2 ← slot s2
+    pure (.clone s s2)
+  | ["X"] => some .disable
+  | ["Q", c] => c.toNat?.map .closeConn
+  | _ => none
+
+def suffix (w : World) : String := "#" ++ toString (aliveExt w) ++ "," ++ toString (aliveConn w)
+
+def runTokens : World → List String → List String
+  | _, [] => []
+  | w, tok :: rest =>
+    if tok.startsWith "M=" then ("m" ++ suffix w) :: runTokens w rest
+    else
+      match parseOp tok with
+      | none => ("bad-op" ++ suffix w) :: runTokens w rest
+      | some op =>
+        let (w', o) := step theCfg w op
+        (o ++ suffix w') :: runTokens w' rest
+
+def run (line : String) : String :=
+  joinWith " " (runTokens (World.init ActixModel.Consts.reqPoolCap) (words line))
 
 end ActixModel.Drv.C11
